@@ -20,6 +20,10 @@ class Unfoldable(Exception):
     pass
 
 
+class BoolList(list):
+    """A boolean tensor (result of a comparison / all / any / ~): used as an index it is a mask, not a list of positions."""
+
+
 class PySeq(list):
     """A python sequence (tuple / list display, range, shape) as opposed to a tensor value: true iff non-empty."""
 
@@ -305,7 +309,8 @@ class Folder:
             if isinstance(node.op, ast.Not):
                 return not truth(v)
             if isinstance(node.op, ast.Invert):
-                return _ew(lambda x: (not x) if isinstance(x, bool) else (1 - x if x in (0, 1) else ~x), v)
+                r_ = _ew(lambda x: (not x) if isinstance(x, bool) else (1 - x if x in (0, 1) else ~x), v)
+                return BoolList(r_) if isinstance(v, BoolList) else r_
             raise Unfoldable("unary")
         if isinstance(node, ast.BinOp):
             a, b = self.fold(node.left), self.fold(node.right)
@@ -379,6 +384,10 @@ class Folder:
             i = self.fold(sl)
             if isinstance(base, list) and isinstance(i, int) and not isinstance(i, bool) and -len(base) <= i < len(base):
                 return base[i]
+            if isinstance(base, list) and isinstance(i, BoolList) and len(i) == len(base) and not any(isinstance(t, list) for t in i):
+                return [b_ for b_, m_ in zip(base, i) if m_]
+            if isinstance(base, list) and isinstance(i, list) and not isinstance(i, BoolList) and all(isinstance(t, int) and not isinstance(t, bool) and -len(base) <= t < len(base) for t in i):
+                return [base[t] for t in i]
             raise Unfoldable("subscript")
         if isinstance(node, ast.Compare) and len(node.ops) == 1 and isinstance(node.ops[0], (ast.In, ast.NotIn)):
             a, b = self.fold(node.left), self.fold(node.comparators[0])
@@ -394,7 +403,8 @@ class Folder:
             a, b = self.fold(node.left), self.fold(node.comparators[0])
             f = {ast.Lt: lambda x, y: int(x < y), ast.Gt: lambda x, y: int(x > y), ast.LtE: lambda x, y: int(x <= y), ast.GtE: lambda x, y: int(x >= y), ast.Eq: lambda x, y: int(x == y), ast.NotEq: lambda x, y: int(x != y)}[type(node.ops[0])]
             try:
-                return _ew(f, a, b)
+                r_ = _ew(f, a, b)
+                return BoolList(r_) if isinstance(r_, list) else r_
             except TypeError as exc:
                 raise Unfoldable(str(exc))
         if isinstance(node, ast.Call) and isinstance(node.func, ast.Attribute) and self.funcs and attr_chain(node.func) in self.funcs:
@@ -454,8 +464,8 @@ class Folder:
                 red = any if m == "any" else all
                 if isinstance(v, list) and v and isinstance(v[0], list) and d in (0, 1, -1, -2):
                     if d in (1, -1):
-                        return [int(red(bool(t) for t in row)) for row in v]
-                    return [int(red(bool(row[j]) for row in v)) for j in range(len(v[0]))]
+                        return BoolList(int(red(bool(t) for t in row)) for row in v)
+                    return BoolList(int(red(bool(row[j]) for row in v)) for j in range(len(v[0])))
                 raise Unfoldable("any/all over an axis")
             if m in ("repeat_interleave", "repeat", "tile"):
                 v = self.fold(node.func.value)
@@ -608,6 +618,18 @@ class Folder:
                     return _ew(fn, self.fold(node.args[0]))
                 except (ValueError, TypeError) as exc:
                     raise Unfoldable(str(exc))
+            if short in ("all", "any") and nm.startswith("torch.") and node.args and (len(node.args) == 2 or any(k.arg == "dim" for k in node.keywords)):
+                fake = ast.Call(func=ast.Attribute(value=node.args[0], attr=short, ctx=ast.Load()), args=list(node.args[1:]), keywords=[k for k in node.keywords if k.arg == "dim"])
+                return self.fold(fake)
+            if short in ("matmul", "mm") and len(node.args) == 2:
+                a, b = self.fold(node.args[0]), self.fold(node.args[1])
+                if isinstance(a, list) and isinstance(b, list) and a and b and isinstance(b[0], list):
+                    rows = a if isinstance(a[0], list) else [a]
+                    if any(len(r_) != len(b) for r_ in rows):
+                        raise Unfoldable("matmul shapes")
+                    out = [[sum(r_[t] * b[t][j] for t in range(len(b))) for j in range(len(b[0]))] for r_ in rows]
+                    return out if isinstance(a[0], list) else out[0]
+                raise Unfoldable("matmul operands")
             if short in ("all", "any", "numel", "dim") and len(node.args) == 1 and not node.keywords:
                 v = self.fold(node.args[0])
 
